@@ -208,6 +208,7 @@ func execPass(run *Run, pd *PropDoc, arch string, overlay map[string][]byte) {
 	// per-pass registries (passes run one after the other; holding the previous pass's packages would keep them alive)
 	declRegistry = sync.Map{}
 	guardGaps = map[*PkgIndex]map[string]string{}
+	siblingGuards = map[*PkgIndex]map[string]string{}
 	resetNormalised()
 	definedCache = sync.Map{}
 	fgByBody = sync.Map{}
@@ -220,6 +221,7 @@ func execPass(run *Run, pd *PropDoc, arch string, overlay map[string][]byte) {
 	pd.Fn(c)
 	declRegistry = sync.Map{}
 	guardGaps = map[*PkgIndex]map[string]string{}
+	siblingGuards = map[*PkgIndex]map[string]string{}
 	resetNormalised()
 	definedCache = sync.Map{}
 	fgByBody = sync.Map{}
